@@ -1,0 +1,18 @@
+//go:build verif
+
+// Contracts for the deductive verifier in /verif (govc). Comment-only.
+
+package option
+
+//@ # ---- query planning (C13): the planner reads from an interval the database stores - the largest stored interval
+//@ # that is not above the query interval, the first configured one if there is none -------------------------------
+//@ func DatabaseOption.FindMatchSmallestInterval
+//@   prop C13
+//@   arith math
+//@   requires len(e.Intervals) > 0
+//@   modifies nothing
+//@   ensures[the_planner_picks_an_interval_the_database_stores] exists(k, 0, len(e.Intervals), e.Intervals[k].Interval == result)
+//@   ensures[never_above_the_query_interval_unless_it_is_the_first_configured_one] result == e.Intervals[0].Interval || int64(result) <= int64(interval)
+//@   loop 1 invariant idx == rangeindex + 1 && idx >= 0 && idx <= len(e.Intervals) && len(storageIntervals) == len(e.Intervals) && forall(i, 0, idx, storageIntervals[i] == e.Intervals[i].Interval)
+//@   loop 2 invariant forall(i, 0, len(storageIntervals), exists(k, 0, len(e.Intervals), e.Intervals[k].Interval == storageIntervals[i])) && storageInterval == e.Intervals[0].Interval
+//@ end
